@@ -424,7 +424,9 @@ def c09_derive(opts):
                     v("bip32-ckdpub-wrong", "public derivation differs from BIP32 CKDpub: %s" % bad[:3], (seed.hex(), head, tail),
                       hdr + "k=m.subkey_for_path(%r).public_copy().subkey_for_path(%r); print(k.hwif())" % ("/".join(el_str(x) for x in head), "/".join(el_str(x) for x in tail)))
     t.exhaustive = False
-    return t.result()
+    res = t.result()
+    res["violation_counts"] = dict(v.count)
+    return res
 
 
 # ----------------------------------------------------------------------------- 2. public/private commutation
@@ -504,6 +506,7 @@ def c09_commutation(opts):
             v("bip32-public-copy-leaks-secret", "public_copy() still carries the secret exponent", (seed.hex(), hp), None)
     t.exhaustive = False
     res = t.result()
+    res["violation_counts"] = dict(v.count)
     res["refusal_modes"] = {k: sorted(x) for k, x in refusals.items()}
     return res
 
@@ -573,7 +576,9 @@ def c09_cache(opts):
                   REPO_HDR + "from pycoin.symbols.btc import network as N; r=N.parse.bip32(%r); steps=%r\nfor (i,h,a,l,_) in steps: k=r.subkey(i,is_hardened=h,as_private=a); print(k.hwif(as_private=k.is_private()))" % (root_text, steps[:si + 1]))
                 break
     t.exhaustive = False
-    return t.result()
+    res = t.result()
+    res["violation_counts"] = dict(v.count)
+    return res
 
 
 # ------------------------------------------------------------------------------------------ 4. path spellings
@@ -711,7 +716,9 @@ def c09_paths(opts):
         if bad:
             v("subpaths-range-expansion", "range spec %r: %s" % (spec, bad[:2]), (seed.hex(), spec), hdr + "print([k.hwif() for k in m.subkeys(%r)])" % spec)
     t.exhaustive = False
-    return t.result()
+    res = t.result()
+    res["violation_counts"] = dict(v.count)
+    return res
 
 
 # ------------------------------------------------------------------------------------------ 5. text round trip
@@ -842,6 +849,7 @@ def c09_text(opts):
                     v("hd-text-cross-network", "%s text parsed by %s: %r (prefix equal: %r)" % (a, b, got, pre == pre_b), (a, b, text), None)
     t.exhaustive = False
     res = t.result()
+    res["violation_counts"] = dict(v.count)
     res["networks"] = len(nets)
     res["skipped_networks"] = skipped
     return res
@@ -952,4 +960,6 @@ def c09_electrum(opts):
         except Exception as e:  # noqa
             v("electrum-raises", "Electrum wallet raises %s: %s" % (type(e).__name__, e), (net.symbol, mk), None)
     t.exhaustive = False
-    return t.result()
+    res = t.result()
+    res["violation_counts"] = dict(v.count)
+    return res
